@@ -126,6 +126,11 @@ impl<V: Clone + Ord> Model<V> {
     }
 
     /// stable sort by (key bytes, value)
+    /// RFC 8785 order: keys as UTF-16 code unit sequences (ties broken by value, as `sort`)
+    pub fn sort_utf16(&mut self) {
+        self.entries.sort_by(|a, b| a.0.encode_utf16().cmp(b.0.encode_utf16()).then_with(|| a.1.cmp(&b.1)));
+    }
+
     pub fn sort(&mut self) {
         self.entries.sort_by(|a, b| a.0.as_bytes().cmp(b.0.as_bytes()).then_with(|| a.1.cmp(&b.1)));
     }
